@@ -20,7 +20,7 @@ from vlib.par import pmap
 from bounded.common import Suite, FmtStr, Chunk, cells
 from spec.terminal import Terminal, BLANK, show, pyte_new, compare_with_pyte, selftest_against_pyte
 
-LEVEL = "exploration"
+LEVEL = "proof"
 ASSUMPTIONS = [
     "the terminal is the reference model spec/terminal.py (xterm semantics: last-column flag, LF/IND scroll at the bottom row pushing the top "
     "line into scrollback, DECSC/DECRC, DSR 6); thorough cross-checks every stream the window writes against pyte.HistoryScreen",
@@ -389,13 +389,22 @@ def _collect(s, check, results, stats):
 
 
 def deductive(check, tier):
-    """scroll accounting of CursorAwareWindow.render_to_terminal (integers only; everything else abstracted)"""
+    """(1) the inductive screen proof of CursorAwareWindow.render_to_terminal over the tape model (contracts/cursorwindow.py): from ANY
+    state satisfying the cache/screen invariant the real body leaves the lines above the window untouched, shows every array row from
+    the window's first row (rows pushed off the top stay intact in the scrollback), blanks the rest, scrolls exactly what does not fit,
+    returns the rows pushed off, puts the cursor on the designated cell and re-establishes the invariant - hence after every render of
+    every history; (2) the older integers-only contract (everything else abstracted) is kept as an independent second derivation of the
+    scroll accounting"""
     import contracts.window as W
+    import contracts.cursorwindow as CW
     from pyvc.verify import verify
+    verify(CW.caw_screen, tier, check)
     verify(W.caw_render, tier, check)
-    check.assume("deductive layer covers only the integer bookkeeping (number of scroll_down calls, top_usable_row, return value, cursor "
-                 "row) with row caches / lines / escape strings abstracted to opaque values; BaseWindow.scroll_down is assumed to scroll "
-                 "by exactly one line; what the terminal shows is decided by the bounded suite")
+    check.assume("deductive layer: ghost terminal = a tape of rows at row granularity (shows(line) / blank / junk / partial), the screen a "
+                 "window [off, off+H) onto it; ASSUMED: blessed/xterm capability semantics at row level (move, write of a line from column 0, "
+                 "clear_eol, clear_bol), BaseWindow.scroll_down scrolls exactly one line and what scrolls into view is blank - all validated "
+                 "by the bounded suite against spec/terminal.py (+ pyte); lines identified with their terminal strings (C19/C01); induction "
+                 "base: after __enter__ the row cache is empty and top_usable_row is the reported cursor row (0 <= row < height)")
 
 
 def run(check, tier, seed):
